@@ -60,6 +60,29 @@ func c05RecurCheck(c c06Case, a *advWorld, stop time.Duration, opens []time.Dura
 		}
 		prev = t
 	}
+	// Upper bound: a multicast RA is sent only for the initial advertisement, for a
+	// request of the unsolicited loop (at the opening and then after each wait: min(iv,16s)
+	// for the first three, iv afterwards, min=max=iv here) or for a solicitation from ::.
+	nreq := 0
+	for t, k := opens[last], 0; t <= stop; k++ {
+		nreq++
+		w := iv
+		if k < 3 && w > 16*time.Second {
+			w = 16 * time.Second
+		}
+		t += w
+	}
+	nsol := 0
+	var at time.Duration
+	for _, e := range c.Events {
+		at += e.Gap
+		if e.Multicast && !e.Reinit && !e.WriteErr && !e.FwdFlip && e.UFail == "" && at >= opens[last]-time.Millisecond {
+			nsol++
+		}
+	}
+	if len(mc) > 1+nreq+nsol {
+		bad("C05:recur-too-many", "connection %d (opened %s, stop %s): %d multicast RAs, but only the initial one, %d unsolicited requests (waits within [min,max] = %s) and %d solicitations from :: can have asked for one; all: %v", last, opens[last], stop, len(mc), nreq, iv, nsol, mc)
+	}
 	if n := int((stop - opens[last]) / lim); len(mc) < n {
 		bad("C05:recur-stalled", "connection %d: %d multicast RAs in %s, expected at least %d", last, len(mc), stop-opens[last], n)
 	}
@@ -90,7 +113,7 @@ func c05RecurRun(t *testing.T, c c06Case) (steps int, log string, vs [][2]string
 func TestVerifC05Recur(t *testing.T) {
 	r := ev.Begin("C05", "recur")
 	defer r.End(t)
-	r.Rule = "histories = all sequences of <=K events over {link change (tear-down + re-initialisation), transient failure of the next scheduled multicast transmission, solicitation from ::, unicast solicitation} x gap {0, 100ms, 3.1s, 6s}, injected into the real Advertiser (min=max in {4s, 9s, 30s}; 30s: histories <=2 in the quick tier) under the virtual clock, followed by five quiet intervals; oracle: Run is still running at the stop and, on the last connection, consecutive multicast RAs are never more than max+3s apart up to the stop, the first three waits on a re-initialised interface <=16s; states = histories executed; non-trivial = history has >=1 event; distinct = distinct history"
+	r.Rule = "histories = all sequences of <=K events over {link change (tear-down + re-initialisation), transient failure of the next scheduled multicast transmission, solicitation from ::, unicast solicitation} x gap {0, 100ms, 3.1s, 6s}, injected into the real Advertiser (min=max in {4s, 9s, 30s}; 30s: histories <=2 in the quick tier) under the virtual clock, followed by five quiet intervals; oracle: Run is still running at the stop and, on the last connection, consecutive multicast RAs are never more than max+3s apart up to the stop, the first three waits on a re-initialised interface <=16s, and never more multicast RAs than the initial one + the unsolicited requests that fit (waits >= min) + the solicitations from ::; states = histories executed; non-trivial = history has >=1 event; distinct = distinct history"
 	r.Assumptions = []string{"canonical goroutine schedule per history", "min=max so that the wait is not a random variable"}
 	if r.Replay != nil {
 		var c c06Case
